@@ -24,8 +24,9 @@ type SessResult struct {
 }
 
 type Delivery struct {
-	Chunk   int // >0: client delivers each request in pieces of this many bytes, waiting for quiescence in between
-	MaxRead int // >0: server-side socket reads return at most this many bytes
+	Chunk   int            // >0: client delivers each request in pieces of this many bytes, waiting for quiescence in between
+	MaxRead int            // >0: server-side socket reads return at most this many bytes
+	Before  map[int]func() // harness actions executed before request i is sent (e.g. replace a file on disk)
 }
 
 // runSession drives one connection through reqs against a freshly started server and checks every response
@@ -43,6 +44,9 @@ func runSession(t *testing.T, o SrvOpts, m *Model, reqs []Req, d Delivery) *Sess
 			}
 		}
 		for i, rq := range reqs {
+			if f := d.Before[i]; f != nil {
+				f()
+			}
 			if m != nil {
 				m.Pre(rq)
 			}
@@ -116,3 +120,5 @@ func reqStrings(reqs []Req) []string {
 	}
 	return out
 }
+
+func (d Delivery) plain() bool { return d.Chunk == 0 && d.MaxRead == 0 && d.Before == nil }
